@@ -16,6 +16,7 @@ package reader
 
 import (
 	"context"
+	"errors"
 
 	"github.com/milvus-io/milvus-proto/go-api/v2/commonpb"
 	"github.com/milvus-io/milvus-proto/go-api/v2/msgpb"
@@ -35,6 +36,7 @@ type c04Target struct {
 	shards    int
 	parts     map[string]int64
 	vchannels []string // when set: the downstream vchannels as listed by the target
+	missingCalls int   // the first N lookups answer "collection not found"
 }
 
 func (t *c04Target) info(name, db string) *model.CollectionInfo {
@@ -58,6 +60,10 @@ func (t *c04Target) info(name, db string) *model.CollectionInfo {
 }
 
 func (t *c04Target) GetCollectionInfo(ctx context.Context, name, db string) (*model.CollectionInfo, error) {
+	if t.missingCalls > 0 {
+		t.missingCalls--
+		return nil, errors.New("collection not found")
+	}
 	return t.info(name, db), nil
 }
 func (t *c04Target) GetPartitionInfo(ctx context.Context, name, db string) (*model.CollectionInfo, error) {
@@ -443,3 +449,64 @@ func VerifC02_StartReadPairing() {
 }
 
 func funcutilToP(v string) string { return funcutil.ToPhysicalChannel(v) }
+
+// VerifC20_ReaderEvents (the reader-side clause of C20): the create-collection,
+// create-partition, drop-partition and drop-collection requests built by the channel
+// manager carry the source object's identity, are marked as replicated and are stamped
+// with the object's create time / the drop message time.
+func VerifC20_ReaderEvents() {
+	S := 2
+	w := c04NewWorld(S)
+	ct := vU64("collection.createTime")
+	pct := vU64("partition.createTime")
+	vAssume(vAnd(vAnd(ct >= 1, ct < c03Lim), vAnd(pct >= 1, pct < c03Lim)))
+	w.info.CreateTime = ct
+	w.target.missingCalls = 1 // the downstream does not have the collection yet: it is created first
+	vAssert(w.mgr.StartReadCollection(w.ctx, w.db, w.info, nil, nil) == nil, "C20.start-ok")
+	vQuiesce()
+	evs := w.events(api.ReplicateCreateCollection)
+	vAssert(len(evs) == 1, "C20.exactly-one-create-collection-request")
+	if len(evs) == 1 {
+		ev := evs[0]
+		vAssert(ev.CollectionInfo == w.info && ev.TaskID == "task-7" && ev.ReplicateParam.Database == "db", "C20.create-collection-request-carries-the-source-collection")
+		vAssert(ev.ReplicateInfo != nil && ev.ReplicateInfo.IsReplicate && ev.ReplicateInfo.MsgTimestamp == ct, "C20.create-collection-request-is-stamped-with-the-create-time")
+	}
+	part := c04Partition(pb.PartitionState_PartitionCreated)
+	part.PartitionCreatedTimestamp = pct
+	vAssert(w.mgr.AddPartition(w.ctx, w.db, w.info, part) == nil, "C20.add-partition-ok")
+	vQuiesce()
+	evs = w.events(api.ReplicateCreatePartition)
+	vAssert(len(evs) == 1, "C20.exactly-one-create-partition-request")
+	if len(evs) == 1 {
+		ev := evs[0]
+		vAssert(ev.CollectionInfo == w.info && ev.PartitionInfo == part && ev.TaskID == "task-7" && ev.ReplicateParam.Database == "db", "C20.create-partition-request-carries-the-source-objects")
+		vAssert(ev.ReplicateInfo != nil && ev.ReplicateInfo.IsReplicate && ev.ReplicateInfo.MsgTimestamp == pct, "C20.create-partition-request-is-stamped-with-the-partition-create-time")
+	}
+	w.target.parts["p"] = 911
+	// partition drop on both shards, then collection drop on both shards
+	t1, t2 := vU64("dropPartition.ts"), vU64("dropCollection.ts")
+	vAssume(vAnd(vAnd(t1 >= 100, t1 < t2), t2 < c03Lim))
+	for s := 0; s < S; s++ {
+		w.deliver(s, t1, rDropPartition(100, 11, "p", t1, rPos(w.vch(s), "dropp", t1)))
+		vQuiesce()
+	}
+	evs = w.events(api.ReplicateDropPartition)
+	vAssert(len(evs) == 1, "C20.exactly-one-drop-partition-request")
+	if len(evs) == 1 {
+		ev := evs[0]
+		vAssert(ev.CollectionInfo == w.info && ev.PartitionInfo == part && ev.ReplicateParam.Database == "db", "C20.drop-partition-request-carries-the-source-objects")
+		vAssert(ev.ReplicateInfo != nil && ev.ReplicateInfo.IsReplicate && ev.ReplicateInfo.MsgTimestamp >= t1, "C20.drop-partition-request-is-stamped-not-before-the-drop-message")
+	}
+	for s := 0; s < S; s++ {
+		w.deliver(s, t2, rDropCollection(100, t2, rPos(w.vch(s), "dropc", t2)))
+		vQuiesce()
+	}
+	evs = w.events(api.ReplicateDropCollection)
+	vAssert(len(evs) == 1, "C20.exactly-one-drop-collection-request")
+	if len(evs) == 1 {
+		ev := evs[0]
+		vAssert(ev.CollectionInfo == w.info && ev.ReplicateParam.Database == "db", "C20.drop-collection-request-carries-the-source-collection")
+		vAssert(ev.ReplicateInfo != nil && ev.ReplicateInfo.IsReplicate && ev.ReplicateInfo.MsgTimestamp >= t2, "C20.drop-collection-request-is-stamped-not-before-the-drop-message")
+	}
+	vReach("end")
+}
